@@ -53,7 +53,7 @@ CHECKS["C01"] = {
     "jobs": [
         {"pkg": MUX, "run": "^TestVerif_C01_SessionPair$", "checks": {"quick": 1500, "thorough": 200000}, "shards": {"thorough": 16}},
         {"pkg": MUX, "run": "^TestVerif_C01_AddConnRace$", "checks": {"quick": 300, "thorough": 20000}, "shards": {"thorough": 8}},
-        {"pkg": SERVER, "run": "^TestVerif_C01_FullRig$", "checks": {"quick": 120, "thorough": 8000}, "shards": {"thorough": 16}, "timeout": {"quick": 600}},
+        {"pkg": SERVER, "run": "^TestVerif_C01_FullRig$", "checks": {"quick": 90, "thorough": 8000}, "shards": {"thorough": 16}, "timeout": {"quick": 600}},
         {"pkg": MUX, "run": "^TestVerif_C01_ManyStreams$", "checks": {"quick": 40, "thorough": 3000}, "shards": {"thorough": 16}},
     ],
 }
